@@ -11,8 +11,9 @@ What is proved for ALL histories / states / fault positions (no size bound), abo
 indexed.go / storage.go / bolt.go:
   * `failed_op_no_trace`          any operation that reports an error (rejection, fault at ANY write, failed commit)
                                   leaves the committed bucket unchanged;
-  * `keys_faithful_on_wf`         on well-formed configurations/objects `path.Join`'s cleaning is the identity and the
-                                  key layout is injective (data vs index area, index vs index, value vs value);
+  * `keys_faithful_on_wf`         on well-formed configurations/objects (ids may be clean MULTI-segment paths such as
+                                  "tasks/cpu") `path.Join`'s cleaning is the identity and the key layout is injective
+                                  (data vs index area, index vs index, value vs value);
   * `step_refines_map`            one API call refines one step of the abstract map (result codes by the exists /
                                   replace rules, only an injected fault can make it fail otherwise) and keeps data
                                   area and index area in bijection with the map;
